@@ -334,10 +334,11 @@ impl Sub {
                         let res = match res { Ok(r) => r, Err(p) => { sh.stats.lock().unwrap().notes.push(format!("proptest abort: harness panic outside the oracle: {p}")); return; } };
                         match res {
                             Ok(()) => {}
-                            Err(TestError::Fail(_reason, c)) => {
-                                // re-judge the shrunk case to obtain its own message / key
+                            Err(TestError::Fail(reason, c)) => {
+                                // re-judge the shrunk case to obtain its own message / key; a case that depends on real thread timing
+                                // (C17 free-running) may not fail again: keep the message of the failing execution then
                                 let v = judge(&**oracle, &c);
-                                let (msg, key) = match v { Verdict::Fail { msg, key } => (msg, key), _ => ("(shrunk case no longer fails; flaky oracle?)".into(), None) };
+                                let (msg, key) = match v { Verdict::Fail { msg, key } => (msg, key), _ => (format!("{} (observed once; the case did not fail again when re-executed: timing-dependent)", reason.message()), None) };
                                 let case = serde_json::to_value(&c).unwrap_or(Value::Null);
                                 sh.stats.lock().unwrap().failures.push(Failure { msg, case, key });
                             }
